@@ -18,7 +18,8 @@ EXPLANATION = ('Two solver instances can only interfere through an object both c
                'allocation-site abstraction. The check proves that every one of the mutation sites of the library '
                'has no such singleton in its target set, lists every mutable default with the reason it is harmless, '
                'and checks the freshness of the solver\'s object graph. This covers all interleavings at once.')
-TRUSTED = ['CPython ast', 'iva engine (points-to relation, allocation-site abstraction)']
+TRUSTED = ['CPython ast', 'iva engine (points-to relation, allocation-site abstraction)',
+           'logging.Logger objects are process-wide by design and hold no solver state']
 
 DATA_KINDS = ('inst', 'ext_inst', 'list', 'tuple', 'dict', 'set', 'ndarray', 'ext', 'param', 'field')
 MUTABLE_KINDS = ('inst', 'list', 'dict', 'set', 'ndarray', 'ext')
